@@ -8,6 +8,9 @@ of the row payload `α`, so they are sliced with the rows by construction), an a
 rows, and arbitrary numbers `ncf`, `nsf` of control / sensitive columns.
 -/
 import FairModel.Lemmas.Frame
+import FairModel.Lemmas.FrameSrc
+import FairModel.Lemmas.FrameMulti
+import FairModel.Lemmas.FeatureNames
 
 namespace C01
 open Frame
@@ -307,6 +310,441 @@ theorem stratum_partition (nanv : β) (ncf nsf : Nat) (hn : 0 < ncf + nsf) (f : 
       rw [← hr'.2]; simp [Row.key, ← h1]
     simp [this, hk]
 
+/-! ### Tie to the source text (`Generated/FrameSrc.lean`)
+
+`harness/lifters/frame.py` translates, on every run, the bodies of `DisaggregatedResult._apply_functions`
+and `DisaggregatedResult.create` (which columns are grouped on, in which order: control features first,
+then sensitive features; when the result is re-indexed and to what; `overall` per control stratum),
+`apply_to_dataframe`, `AnnotatedMetricFunction.__call__` and the loop of
+`MetricFrame._construct_annotated_metric_function` into Lean over the pandas primitives of
+`Model/FramePrims.lean`.  `src_*_eq_model` identify the translation with `Frame.byGroup` / `overall`
+for the column names `MetricFrame.__init__` passes, and the clauses of the property are restated for
+the translated functions. -/
+
+section Source
+open FramePrims FrameSrc
+
+theorem src_byGroup_eq_model (nanv : β) (ncf nsf : Nat) (f : List α → β) (rows : List (Row α))
+    (hwf : WF ncf nsf rows) :
+    create_by_group nanv rows f (sfNames nsf) (cfNames ncf) = byGroup nanv ncf nsf f rows :=
+  create_by_group_eq_model nanv ncf nsf f rows hwf
+
+theorem src_overall_eq_model (nanv : β) (ncf nsf : Nat) (f : List α → β) (rows : List (Row α))
+    (hwf : WF ncf nsf rows) :
+    create_overall nanv rows f (sfNames nsf) (cfNames ncf) = overall nanv ncf f rows :=
+  create_overall_eq_model nanv ncf nsf f rows hwf
+
+/-- translated `create(...).by_group`: every entry is the metric on exactly the rows of that tuple -/
+theorem src_byGroup_cell (nanv : β) (ncf nsf : Nat) (hn : 0 < ncf + nsf) (f : List α → β)
+    (rows : List (Row α)) (hwf : WF ncf nsf rows) (k : Key) (v : β)
+    (h : (k, v) ∈ create_by_group nanv rows f (sfNames nsf) (cfNames ncf)) :
+    v = if rows.filter (fun r => r.cf ++ r.sf == k) = [] then nanv
+        else f ((rows.filter (fun r => r.cf ++ r.sf == k)).map (·.dat)) := by
+  rw [src_byGroup_eq_model nanv ncf nsf f rows hwf] at h
+  exact byGroup_cell nanv ncf nsf hn f rows k v h
+
+/-- translated `create(...).by_group`: the index is the Cartesian product of the observed values,
+    control columns first -/
+theorem src_byGroup_index (nanv : β) (ncf nsf : Nat) (hn : 0 < ncf + nsf) (f : List α → β)
+    (rows : List (Row α)) (hwf : WF ncf nsf rows) (k : Key) :
+    k ∈ keys (create_by_group nanv rows f (sfNames nsf) (cfNames ncf)) ↔
+      k.length = ncf + nsf ∧ ∀ j, j < ncf + nsf → ∃ r ∈ rows, (r.cf ++ r.sf).getD j "" = k.getD j "" := by
+  rw [src_byGroup_eq_model nanv ncf nsf f rows hwf]
+  exact byGroup_index nanv ncf nsf hn f rows hwf k
+
+theorem src_byGroup_index_nodup_sorted (nanv : β) (ncf nsf : Nat) (f : List α → β)
+    (rows : List (Row α)) (hwf : WF ncf nsf rows) :
+    (keys (create_by_group nanv rows f (sfNames nsf) (cfNames ncf))).Nodup ∧
+    (keys (create_by_group nanv rows f (sfNames nsf) (cfNames ncf))).Pairwise (· < ·) := by
+  rw [src_byGroup_eq_model nanv ncf nsf f rows hwf]
+  exact ⟨byGroup_index_nodup nanv ncf nsf f rows, byGroup_index_sorted nanv ncf nsf f rows⟩
+
+/-- translated `create(...).by_group`: an observed-values combination without rows is NaN, not dropped -/
+theorem src_byGroup_empty (nanv : β) (ncf nsf : Nat) (hn : 0 < ncf + nsf) (f : List α → β)
+    (rows : List (Row α)) (hwf : WF ncf nsf rows) (k : Key) (hlen : k.length = ncf + nsf)
+    (hobs : ∀ j, j < ncf + nsf → ∃ r ∈ rows, (r.cf ++ r.sf).getD j "" = k.getD j "")
+    (hempty : ∀ r ∈ rows, r.cf ++ r.sf ≠ k) :
+    (k, nanv) ∈ create_by_group nanv rows f (sfNames nsf) (cfNames ncf) := by
+  rw [src_byGroup_eq_model nanv ncf nsf f rows hwf]
+  exact byGroup_empty nanv ncf nsf hn f rows hwf k hlen hobs hempty
+
+/-- translated `create(...).overall` without control features: the metric on all rows -/
+theorem src_overall_eq (nanv : β) (nsf : Nat) (f : List α → β) (rows : List (Row α)) :
+    create_overall nanv rows f (sfNames nsf) (cfNames 0) = [([], f (rows.map (·.dat)))] := rfl
+
+/-- translated `create(...).overall` with control features: per control combination -/
+theorem src_overall_control_cell (nanv : β) (ncf nsf : Nat) (hn : 0 < ncf) (f : List α → β)
+    (rows : List (Row α)) (hwf : WF ncf nsf rows) (c : Key) (v : β)
+    (h : (c, v) ∈ create_overall nanv rows f (sfNames nsf) (cfNames ncf)) :
+    v = if rows.filter (fun r => r.cf == c) = [] then nanv
+        else f ((rows.filter (fun r => r.cf == c)).map (·.dat)) := by
+  rw [src_overall_eq_model nanv ncf nsf f rows hwf] at h
+  exact overall_control_cell nanv ncf hn f rows c v h
+
+theorem src_byGroup_partition (nanv : β) (ncf nsf : Nat) (hn : 0 < ncf + nsf) (f : List α → β)
+    (rows : List (Row α)) (hwf : WF ncf nsf rows) :
+    ((keys (create_by_group nanv rows f (sfNames nsf) (cfNames ncf))).flatMap
+      (fun k => rowsOf Row.key k rows)).Perm rows := by
+  rw [src_byGroup_eq_model nanv ncf nsf f rows hwf]
+  exact byGroup_partition nanv ncf nsf hn f rows hwf
+
+end Source
+
+/-! ### Multi-metric frames: no cross-talk between the metrics of a dict
+
+`Model/FrameMulti.lean`: `metrics=` a dict of any number of callables, each with its own entry of
+`sample_params`; all sample parameters are stored in ONE table `all_data`.  The column of a parameter is
+`f"{name}_{param_name}"` made unique by `while col_name in all_data.columns: col_name = col_name + "_"`
+(translated from `_construct_annotated_metric_function`, repair 897f58c of finding F19), so the theorems
+below need NO hypothesis on the metric or parameter names.  Under the pre-repair rule (no `while` loop) they
+are false: `legacy_crosstalk_witness`, `legacy_basecolumn_witness`. -/
+
+section Multi
+open FramePrims FrameMulti
+
+variable {γ : Type}
+
+/-- the uniquify loop always ends on a name that is not yet a column of `all_data` -/
+theorem column_name_fresh (t : AllData) (c : String) : uniquifyCol t c "_" ∉ columns t :=
+  uniquifyCol_fresh t c "_" (by decide)
+
+/-- `ColsOK`, proved for the current source: after constructing ANY dict of metrics the columns of
+    `all_data` are pairwise distinct, y_true / y_pred still hold the data, and every metric is paired with
+    an annotated function whose keyword columns hold exactly its own parameter values -/
+theorem multi_columns_ok (yt yp : List Rat) (ms : List (MetricSpec γ)) :
+    List.Forall₂ (RelV (constructAll (baseData yt yp) ms).1) ms (constructAll (baseData yt yp) ms).2 ∧
+    getCol (constructAll (baseData yt yp) ms).1 "y_true" = yt ∧
+    getCol (constructAll (baseData yt yp) ms).1 "y_pred" = yp :=
+  constructAll_rel yt yp ms
+
+/-- Every metric of a dict is called, on every slice, with y_true / y_pred of the slice and EXACTLY
+    ITS OWN non-None sample parameters, sliced the same way — whatever the other metrics, their
+    parameters and all the names are. -/
+theorem multi_metric_own_params (yt yp : List Rat) (ms : List (MetricSpec γ))
+    (hnames : (ms.map (·.name)).Nodup) (m : MetricSpec γ) (hm : m ∈ ms) :
+    ∃ af, (∀ idx, (FrameSrc.apply_to_dataframe idx
+            (fnDict (constructAll (baseData yt yp) ms).1 (constructAll (baseData yt yp) ms).2)).lookup m.name =
+          some (metricFn (constructAll (baseData yt yp) ms).1 af idx)) ∧
+      ∀ idx, metricFn (constructAll (baseData yt yp) ms).1 af idx =
+        m.func [idx.map (fun j => yt.getD j 0), idx.map (fun j => yp.getD j 0)] (ownKwargs m idx) := by
+  obtain ⟨hrel, h1, h2⟩ := constructAll_rel yt yp ms
+  obtain ⟨af, hr, _, hl⟩ := lookup_fnDict_rel _ ms _ hrel hnames m hm (m.func [] [])
+  exact ⟨af, hl, fun idx => metricFn_of_rel _ yt yp m af hr h1 h2 idx⟩
+
+/-- each column of a multi-metric `by_group` equals the single-metric frame of that function with
+    exactly its own sample parameters; any number of metrics, features, rows; any names (the dict keys
+    are distinct, nothing else is assumed) -/
+theorem multi_column_eq_single (nanv : γ) (ncf nsf : Nat) (yt yp : List Rat) (ms : List (MetricSpec γ))
+    (rows : List (Row Nat)) (hwf : WF ncf nsf rows) (hnames : (ms.map (·.name)).Nodup)
+    (m : MetricSpec γ) (hm : m ∈ ms) :
+    FrameMulti.column m.name (byGroupFrame nanv ncf nsf (baseData yt yp) ms rows) =
+      (singleByGroup nanv ncf nsf (baseData yt yp) m rows).map (fun p => (p.1, some p.2)) := by
+  unfold byGroupFrame singleByGroup FrameMulti.column
+  dsimp only
+  rw [FrameSrc.create_by_group_eq_model _ _ _ _ _ hwf, FrameSrc.create_by_group_eq_model _ _ _ _ _ hwf]
+  unfold byGroup
+  refine (applyFunctions_map (fun row => List.lookup m.name row) _ _ _ _ _).trans ?_
+  refine Eq.trans ?_ (applyFunctions_map some _ _ _ _ _).symm
+  obtain ⟨hrel, h1, h2⟩ := constructAll_rel yt yp ms
+  obtain ⟨af, hr, hnan, hl⟩ := lookup_fnDict_rel _ ms _ hrel hnames m hm nanv
+  obtain ⟨hr1, g1, g2⟩ := construct_rel yt yp m
+  rw [hnan]
+  congr 1
+  funext idx
+  rw [hl idx, metricFn_of_rel _ yt yp m af hr h1 h2 idx, metricFn_of_rel _ yt yp m _ hr1 g1 g2 idx]
+
+/-- the same for `overall` (per control stratum when control features exist) -/
+theorem multi_overall_column_eq_single (nanv : γ) (ncf nsf : Nat) (yt yp : List Rat)
+    (ms : List (MetricSpec γ)) (rows : List (Row Nat)) (hwf : WF ncf nsf rows)
+    (hnames : (ms.map (·.name)).Nodup) (m : MetricSpec γ) (hm : m ∈ ms) :
+    FrameMulti.column m.name (overallFrame nanv ncf nsf (baseData yt yp) ms rows) =
+      (singleOverall nanv ncf nsf (baseData yt yp) m rows).map (fun p => (p.1, some p.2)) := by
+  unfold overallFrame singleOverall FrameMulti.column
+  dsimp only
+  rw [FrameSrc.create_overall_eq_model _ _ _ _ _ hwf, FrameSrc.create_overall_eq_model _ _ _ _ _ hwf]
+  unfold overall
+  refine (applyFunctions_map (fun row => List.lookup m.name row) _ _ _ _ _).trans ?_
+  refine Eq.trans ?_ (applyFunctions_map some _ _ _ _ _).symm
+  obtain ⟨hrel, h1, h2⟩ := constructAll_rel yt yp ms
+  obtain ⟨af, hr, hnan, hl⟩ := lookup_fnDict_rel _ ms _ hrel hnames m hm nanv
+  obtain ⟨hr1, g1, g2⟩ := construct_rel yt yp m
+  rw [hnan]
+  congr 1
+  funext idx
+  rw [hl idx, metricFn_of_rel _ yt yp m af hr h1 h2 idx, metricFn_of_rel _ yt yp m _ hr1 g1 g2 idx]
+
+/-- and the single-metric frame is the C01 model frame of "the metric with its own parameters":
+    every clause of C01 applies to every column of a multi-metric frame -/
+theorem single_eq_model (nanv : γ) (ncf nsf : Nat) (yt yp : List Rat) (m : MetricSpec γ)
+    (rows : List (Row Nat)) (hwf : WF ncf nsf rows) :
+    singleByGroup nanv ncf nsf (baseData yt yp) m rows =
+      byGroup nanv ncf nsf
+        (fun idx => m.func [idx.map (fun j => yt.getD j 0), idx.map (fun j => yp.getD j 0)] (ownKwargs m idx))
+        rows := by
+  unfold singleByGroup
+  dsimp only
+  rw [FrameSrc.create_by_group_eq_model _ _ _ _ _ hwf]
+  obtain ⟨hr1, g1, g2⟩ := construct_rel yt yp m
+  congr 1
+  funext idx
+  exact metricFn_of_rel _ yt yp m _ hr1 g1 g2 idx
+
+/-- the public accessors hand out exactly the documented pandas types (table in the docstring of
+    `MetricFrame.overall`), for the `_extract_result` / `_populate_results` lifted from the source -/
+theorem accessor_types (bare hasControl : Bool) :
+    byGroupType bare hasControl = (if bare then .series else .dataFrame) ∧
+    overallType bare hasControl =
+      (if bare then (if hasControl then .series else .scalar) else (if hasControl then .dataFrame else .series)) := by
+  cases bare <;> cases hasControl <;> exact ⟨rfl, rfl⟩
+
+/-- the metric used in the witnesses: the sum of its keyword arrays -/
+def sumKw : List (List Rat) → List (String × List Rat) → Rat := fun _ kw => ((kw.map (·.2)).flatten).sum
+
+/-- metrics named "a" and "a_b" with parameters "b_c" and "c": both columns would be called "a_b_c" -/
+def xtalk : List (MetricSpec Rat) :=
+  [⟨"a", some "a", sumKw, [("b_c", some [1, 2, 4])]⟩, ⟨"a_b", some "a_b", sumKw, [("c", some [10, 20, 40])]⟩]
+
+def xtalk0 : MetricSpec Rat := xtalk.getD 0 ⟨"", none, sumKw, []⟩
+
+/-- COUNTER-WITNESS (finding F19, pre-repair rule `legacyStep` = no uniquify loop): metric "a" receives the
+    OTHER metric's parameter on the rows [0, 1] (30 instead of its own 3) … -/
+theorem legacy_crosstalk_witness :
+    metricFn (legacyConstructAll (baseData [0, 1, 1] [0, 1, 0]) xtalk).1
+      ((legacyConstructAll (baseData [0, 1, 1] [0, 1, 0]) xtalk).2.getD 0 ⟨"", sumKw, [], []⟩) [0, 1] = 30
+    ∧ sumKw [] (ownKwargs xtalk0 [0, 1]) = 3 := by
+  exact ⟨by decide +kernel, by decide +kernel⟩
+
+/-- … while the current (translated) rule gives it its own parameter: the second column is "a_b_c_" -/
+theorem repaired_crosstalk_witness :
+    metricFn (constructAll (baseData [0, 1, 1] [0, 1, 0]) xtalk).1
+      ((constructAll (baseData [0, 1, 1] [0, 1, 0]) xtalk).2.getD 0 ⟨"", sumKw, [], []⟩) [0, 1] = 3
+    ∧ columns (constructAll (baseData [0, 1, 1] [0, 1, 0]) xtalk).1 = ["a_b_c_", "a_b_c", "y_true", "y_pred"] := by
+  exact ⟨by decide +kernel, by decide +kernel⟩
+
+/-- the fraction-free agreement count of y_true and y_pred -/
+def agree : List (List Rat) → List (String × List Rat) → Rat :=
+  fun pos _ => (((pos.getD 0 []).zip (pos.getD 1 [])).filter (fun p => p.1 == p.2)).length
+
+/-- a metric named "y" with a parameter named "pred": its column would be "y_pred" -/
+def xbase : List (MetricSpec Rat) :=
+  [⟨"y", some "y", sumKw, [("pred", some [1, 0, 0])]⟩, ⟨"acc", some "acc", agree, []⟩]
+
+/-- COUNTER-WITNESS (F19, pre-repair rule): the parameter overwrites the `y_pred` column, so the OTHER metric
+    of the dict sees the parameter values instead of the predictions (0 agreements instead of 2) … -/
+theorem legacy_basecolumn_witness :
+    metricFn (legacyConstructAll (baseData [0, 1, 1] [0, 1, 0]) xbase).1
+      ((legacyConstructAll (baseData [0, 1, 1] [0, 1, 0]) xbase).2.getD 1 ⟨"", sumKw, [], []⟩) [0, 1, 2] = 0
+    ∧ agree [[0, 1, 1], [0, 1, 0]] [] = 2 := by
+  exact ⟨by decide +kernel, by decide +kernel⟩
+
+/-- … while the current rule stores the parameter in "y_pred_" and leaves the predictions alone -/
+theorem repaired_basecolumn_witness :
+    metricFn (constructAll (baseData [0, 1, 1] [0, 1, 0]) xbase).1
+      ((constructAll (baseData [0, 1, 1] [0, 1, 0]) xbase).2.getD 1 ⟨"", sumKw, [], []⟩) [0, 1, 2] = 2
+    ∧ columns (constructAll (baseData [0, 1, 1] [0, 1, 0]) xbase).1 = ["y_pred_", "y_true", "y_pred"] := by
+  exact ⟨by decide +kernel, by decide +kernel⟩
+
+end Multi
+
+/-! ### Feature names (`sensitive_levels` / `control_levels`)
+
+`Model/FeatureNames.lean` models `MetricFrame._process_features`, `GroupFeature.__init__` and the
+duplicate check of `MetricFrame.__init__`; the base names, the default-name format and the order of the
+duplicate check are lifted from the source (`Generated/FeatureNamesSrc.lean`). -/
+
+section Names
+open FeatureNames
+
+/-- `reservedClash` says exactly: some feature name is already a column of `all_data` -/
+theorem reservedClash_iff (dataCols s cn : List String) :
+    reservedClash dataCols s cn = true ↔ ∃ n ∈ s ++ cn, n ∈ dataCols := by
+  simp only [reservedClash, FeatureNamesSrc.reservedCheck, FeatureNamesSrc.reservedSensitiveFirst, if_true,
+    Bool.true_and, List.any_eq_true, List.contains_iff_mem]
+
+/-- construction with control features succeeds exactly when both containers yield names, NO name is
+    already a data column (y_true, y_pred, a sample-parameter column) and all names are distinct; the
+    reserved-name rejection comes first -/
+theorem names_accepts_iff (sb cb : String) (dataCols : List String) (sf : Container) (cc : Container)
+    (s cn : List String) (hs : processFeatures sb sf = .ok s) (hc : processFeatures cb cc = .ok cn) :
+    featureNames sb cb dataCols sf (some cc) =
+      (if ∃ n ∈ s ++ cn, n ∈ dataCols then .error .reservedName
+       else if (s ++ cn).Nodup then .ok (s, some cn) else .error .duplicateName) := by
+  unfold featureNames
+  simp only [hs, hc, FeatureNamesSrc.sensitiveNamesFirst, if_true]
+  by_cases hr : ∃ n ∈ s ++ cn, n ∈ dataCols
+  · rw [if_pos ((reservedClash_iff dataCols s cn).mpr hr), if_pos hr]
+  · have : ¬ reservedClash dataCols s cn = true := fun h => hr ((reservedClash_iff dataCols s cn).mp h)
+    rw [if_neg this, if_neg hr]
+    by_cases hn : (s ++ cn).Nodup
+    · have := (firstDuplicate_nil_none_iff _).mpr hn
+      simp [this, hn]
+    · have : firstDuplicate [] (s ++ cn) ≠ none := fun h => hn ((firstDuplicate_nil_none_iff _).mp h)
+      cases hf : firstDuplicate [] (s ++ cn) with
+      | none => exact absurd hf this
+      | some x => simp [hn]
+
+/-- the same without control features -/
+theorem names_accepts_iff_no_control (sb cb : String) (dataCols : List String) (sf : Container)
+    (s : List String) (hs : processFeatures sb sf = .ok s) :
+    featureNames sb cb dataCols sf none =
+      (if ∃ n ∈ s, n ∈ dataCols then .error .reservedName
+       else if s.Nodup then .ok (s, none) else .error .duplicateName) := by
+  unfold featureNames
+  simp only [hs]
+  have hiff := reservedClash_iff dataCols s []
+  simp only [List.append_nil] at hiff
+  by_cases hr : ∃ n ∈ s, n ∈ dataCols
+  · rw [if_pos (hiff.mpr hr), if_pos hr]
+  · have : ¬ reservedClash dataCols s [] = true := fun h => hr (hiff.mp h)
+    rw [if_neg this, if_neg hr]
+    by_cases hn : s.Nodup
+    · have := (firstDuplicate_nil_none_iff _).mpr hn
+      simp [this, hn]
+    · have : firstDuplicate [] s ≠ none := fun h => hn ((firstDuplicate_nil_none_iff _).mp h)
+      cases hf : firstDuplicate [] s with
+      | none => exact absurd hf this
+      | some x => simp [hn]
+
+/-- whenever construction succeeds, the feature names (sensitive ++ control) are pairwise distinct AND none
+    of them is a column of `all_data`: an accepted feature never overwrites y_true, y_pred or a
+    sample-parameter column -/
+theorem names_nodup_and_no_overwrite (sb cb : String) (dataCols : List String) (sf : Container)
+    (cf : Option Container) (s : List String) (c : Option (List String))
+    (h : featureNames sb cb dataCols sf cf = .ok (s, c)) :
+    (s ++ c.getD []).Nodup ∧ ∀ n ∈ s ++ c.getD [], n ∉ dataCols := by
+  cases hs : processFeatures sb sf with
+  | error e => unfold featureNames at h; simp [hs] at h
+  | ok s' =>
+    cases cf with
+    | none =>
+      rw [names_accepts_iff_no_control sb cb dataCols sf s' hs] at h
+      split at h
+      · cases h
+      · next hr =>
+        split at h
+        · next hn =>
+          injection h with h; injection h with h1 h2; subst h1; subst h2
+          simp only [Option.getD_none, List.append_nil]
+          exact ⟨hn, fun n hn' hd => hr ⟨n, hn', hd⟩⟩
+        · cases h
+    | some cc =>
+      cases hc : processFeatures cb cc with
+      | error e => unfold featureNames at h; simp [hs, hc] at h
+      | ok cn =>
+        rw [names_accepts_iff sb cb dataCols sf cc s' cn hs hc] at h
+        split at h
+        · cases h
+        · next hr =>
+          split at h
+          · next hn =>
+            injection h with h; injection h with h1 h2; subst h1; subst h2
+            exact ⟨hn, fun n hn' hd => hr ⟨n, hn', hd⟩⟩
+          · cases h
+
+theorem names_nodup (sb cb : String) (dataCols : List String) (sf : Container) (cf : Option Container)
+    (s : List String) (c : Option (List String)) (h : featureNames sb cb dataCols sf cf = .ok (s, c)) :
+    (s ++ c.getD []).Nodup :=
+  (names_nodup_and_no_overwrite sb cb dataCols sf cf s c h).1
+
+/-- a feature called like a data column is rejected: 'y_true', 'y_pred' (always columns) or the column of a
+    sample parameter -/
+theorem names_reserved_rejected (sb cb : String) (dataCols : List String) (sf : Container) (cf : Option Container)
+    (s : List String) (hs : processFeatures sb sf = .ok s) (n : String) (hn : n ∈ s) (hd : n ∈ dataCols)
+    (hcf : ∀ cc, cf = some cc → ∃ cn, processFeatures cb cc = .ok cn) :
+    featureNames sb cb dataCols sf cf = .error .reservedName := by
+  cases cf with
+  | none =>
+    rw [names_accepts_iff_no_control sb cb dataCols sf s hs, if_pos ⟨n, hn, hd⟩]
+  | some cc =>
+    obtain ⟨cn, hc⟩ := hcf cc rfl
+    rw [names_accepts_iff sb cb dataCols sf cc s cn hs hc, if_pos ⟨n, by simp [hn], hd⟩]
+
+/-- an error of either container is the error of the constructor (sensitive features first) -/
+theorem names_error_propagates (sb cb : String) (dataCols : List String) (sf : Container) (cf : Option Container)
+    (e : FErr) (h : processFeatures sb sf = .error e) : featureNames sb cb dataCols sf cf = .error e := by
+  unfold featureNames; simp [h]
+
+/-- which containers are rejected, and with which error -/
+theorem names_rejected :
+    (∀ b, processFeatures b (.series (some .other)) = .error .seriesNameNotString) ∧
+    (∀ b cols, NameVal.other ∈ cols → processFeatures b (.dataframe cols) = .error .columnNameNotString) ∧
+    (∀ b keys, NameVal.other ∈ keys → processFeatures b (.dict keys true) = .error .columnNameNotString) ∧
+    (∀ b keys, processFeatures b (.dict keys false) = .error .dictConversion) ∧
+    (∀ b, processFeatures b (.list false) = .error .listNonScalar) ∧
+    (∀ b d k, d ≠ 1 → d ≠ 2 → processFeatures b (.array d k) = .error .tooManyDims) := by
+  refine ⟨fun _ => rfl, fun b cols h => columnsNames_other b 0 cols h,
+    fun b keys h => columnsNames_other b 0 keys h, fun _ _ => rfl, fun _ => rfl, ?_⟩
+  intro b d k h1 h2
+  match d, h1, h2 with
+  | 0, _, _ => rfl
+  | 1, h1, _ => exact absurd rfl h1
+  | 2, _, h2 => exact absurd rfl h2
+  | n + 3, _, _ => rfl
+
+/-- which names an accepted container gets: the names it carries, else the defaults `base<i>` -/
+theorem names_accepted (b : String) :
+    processFeatures b (.series none) = .ok [defaultName b 0] ∧
+    (∀ s, processFeatures b (.series (some (.str s))) = .ok [s]) ∧
+    (∀ ss : List String, processFeatures b (.dataframe (ss.map .str)) = .ok ss) ∧
+    (∀ ss : List String, processFeatures b (.dict (ss.map .str) true) = .ok ss) ∧
+    processFeatures b (.list true) = .ok [defaultName b 0] ∧
+    (∀ k, processFeatures b (.array 1 k) = .ok [defaultName b 0]) ∧
+    (∀ k, processFeatures b (.array 2 k) = .ok ((List.range k).map (defaultName b))) :=
+  ⟨rfl, fun _ => rfl, fun ss => columnsNames_str b 0 ss, fun ss => columnsNames_str b 0 ss, rfl,
+    fun _ => rfl, fun _ => rfl⟩
+
+/-- every container is either accepted or rejected with one of the listed errors: no other outcome -/
+theorem names_total (b : String) (c : Container) :
+    (∃ ns, processFeatures b c = .ok ns) ∨ (∃ e, processFeatures b c = .error e) := by
+  cases h : processFeatures b c with
+  | ok ns => exact .inl ⟨ns, rfl⟩
+  | error e => exact .inr ⟨e, rfl⟩
+
+/-- default names never collide with each other … -/
+theorem names_default_distinct (b : String) (k : Nat) : ((List.range k).map (defaultName b)).Nodup :=
+  default_names_nodup b k
+
+/-- … nor across the two kinds of features, for the base names lifted from `__init__` -/
+theorem names_default_disjoint (i j : Nat) :
+    defaultName FeatureNamesSrc.sensitiveBase i ≠ defaultName FeatureNamesSrc.controlBase j := by
+  intro h
+  have h2 := congrArg String.toList h
+  simp [defaultName, FeatureNamesSrc.defaultName, FeatureNamesSrc.sensitiveBase, FeatureNamesSrc.controlBase,
+    String.toList_append] at h2
+
+/-- default names are never `y_true` / `y_pred` -/
+theorem names_default_not_base (i : Nat) :
+    defaultName FeatureNamesSrc.sensitiveBase i ∉ ["y_true", "y_pred"] ∧
+    defaultName FeatureNamesSrc.controlBase i ∉ ["y_true", "y_pred"] := by
+  constructor <;> intro h <;> simp only [List.mem_cons, List.not_mem_nil, or_false] at h <;>
+    rcases h with h | h <;>
+    · have h2 := congrArg String.toList h
+      simp [defaultName, FeatureNamesSrc.defaultName, FeatureNamesSrc.sensitiveBase, FeatureNamesSrc.controlBase,
+        String.toList_append] at h2
+
+/-- hence array / list inputs (which carry no names) are always accepted when no sample parameters are
+    stored: any number of sensitive columns together with any number of control columns -/
+theorem names_arrays_accepted (k l : Nat) :
+    metricFrameNames ["y_true", "y_pred"] (.array 2 k) (some (.array 2 l)) =
+      .ok ((List.range k).map (defaultName FeatureNamesSrc.sensitiveBase),
+           some ((List.range l).map (defaultName FeatureNamesSrc.controlBase))) := by
+  unfold metricFrameNames
+  rw [names_accepts_iff _ _ _ _ _ _ _ rfl rfl, if_neg, if_pos]
+  · rw [List.nodup_append]
+    refine ⟨default_names_nodup _ k, default_names_nodup _ l, ?_⟩
+    intro a ha b hb
+    simp only [List.mem_map, List.mem_range] at ha hb
+    obtain ⟨i, _, rfl⟩ := ha
+    obtain ⟨j, _, rfl⟩ := hb
+    exact names_default_disjoint i j
+  · rintro ⟨n, hn, hd⟩
+    simp only [List.mem_append, List.mem_map, List.mem_range] at hn
+    rcases hn with ⟨i, _, rfl⟩ | ⟨i, _, rfl⟩
+    · exact (names_default_not_base i).1 hd
+    · exact (names_default_not_base i).2 hd
+
+end Names
+
 /-! ### Non-vacuity: a 6-row frame with 2 x 2 sensitive levels and one empty intersection -/
 
 def exRows : List (Row Nat) :=
@@ -327,5 +765,13 @@ example : byGroup 0 1 1 List.sum exRowsC =
 example : overall 0 1 List.sum exRowsC = [(["k"], 14), (["m"], 1)] := by decide +kernel
 example : byGroup 0 0 1 List.length [(⟨(), [], ["z"]⟩ : Row Unit), ⟨(), [], ["b"]⟩, ⟨(), [], ["z"]⟩] =
     [(["b"], 1), (["z"], 2)] := by decide +kernel
+
+example : FeatureNames.metricFrameNames ["y_true", "y_pred"] (.series (some (.str "grp"))) (some (.dataframe [.str "a", .str "grp"])) =
+    .error .duplicateName := by decide +kernel
+example : FeatureNames.metricFrameNames ["y_true", "y_pred"] (.dict [.str "s", .other] true) none = .error .columnNameNotString := by decide +kernel
+example : FeatureNames.metricFrameNames ["m_w", "y_true", "y_pred"] (.series (some (.str "y_pred"))) none = .error .reservedName := by decide +kernel
+example : FeatureNames.metricFrameNames ["m_w", "y_true", "y_pred"] (.list true) (some (.series (some (.str "m_w")))) = .error .reservedName := by decide +kernel
+example : FeatureNames.metricFrameNames ["y_true", "y_pred"] (.list true) (some (.series none)) =
+    .ok (["sensitive_feature_0"], some ["control_feature_0"]) := by decide +kernel
 
 end C01
